@@ -164,6 +164,33 @@ func MapOrderAny() {}
 // Stub redirects calls of the named function to repl under the engine only.
 func Stub(fullName string, repl any) {}
 
+var fsRoot string
+
+// FSRoot is the directory under which FSPut places files ("/srv" under the engine).
+func FSRoot() string {
+	if fsRoot == "" {
+		d, err := os.MkdirTemp("", "verif-fs-")
+		if err != nil {
+			panic(err)
+		}
+		fsRoot = d
+	}
+	return fsRoot
+}
+
+// FSPut creates a file; relative names are below FSRoot().
+func FSPut(name string, data []byte) {
+	if !strings.HasPrefix(name, "/") {
+		name = FSRoot() + "/" + name
+	}
+	if i := strings.LastIndex(name, "/"); i > 0 {
+		os.MkdirAll(name[:i], 0o755)
+	}
+	if err := os.WriteFile(name, data, 0o644); err != nil {
+		panic(err)
+	}
+}
+
 // Env sets an environment variable for the code under test.
 func Env(k, v string) { os.Setenv(k, v) }
 
